@@ -198,9 +198,12 @@ def run(spec, rec):
                 # ... and of a difference of two spectra with matched totals (a residual): entries of either sign, a total that
                 # cancels to round-off.  Nothing may be normalised by the total
                 other = dadi.Spectrum(rng.uniform(0.1, 9.0, size=fs.shape), mask=np.asarray(fs.mask), mask_corners=False)
-                other = other * (float(np.asarray(fs.data)[~np.asarray(fs.mask)].sum()) / float(np.asarray(other.data)[~np.asarray(other.mask)].sum()))
-                ok5, p5 = rec.noraise("project-returns", lambda: (src - (other.fold() if folded else other)).project(to), site=site, tags=dict(tags, kind="residual"))
-                ok6, p6 = rec.noraise("project-returns", lambda: (other.fold() if folded else other).project(to), site=site, tags=tags)
+                tot_o = float(np.asarray(other.data)[~np.asarray(other.mask)].sum())
+                ok5 = ok6 = False
+                if tot_o > 0:          # (a spectrum with every entry masked has no residual to speak of)
+                    other = other * (float(np.asarray(fs.data)[~np.asarray(fs.mask)].sum()) / tot_o)
+                    ok5, p5 = rec.noraise("project-returns", lambda: (src - (other.fold() if folded else other)).project(to), site=site, tags=dict(tags, kind="residual"))
+                    ok6, p6 = rec.noraise("project-returns", lambda: (other.fold() if folded else other).project(to), site=site, tags=tags)
                 if ok5 and ok6:
                     rec.close("residual-linear", relerr(np.asarray(p5.data)[keep], (np.asarray(p.data) - np.asarray(p6.data))[keep], scale=np.max(np.abs(rd))) if keep.any() else 0.0,
                               1e-10, site=site, tags=tags)
